@@ -508,6 +508,10 @@ func genVMProgram(r *rand.Rand, vb [4]float32, height int) []Call {
 			c = randColor(r, &progOpts{})
 		}
 		pal[[]int{0, 1, 5, 62, 63, r.Intn(64)}[i]] = rgbaOf(c) // may be non-premultiplied: the Renderer receives what it is given
+		if r.Intn(4) == 0 {
+			// ... or shaped like a gradient (a Destination driven directly is not behind the decoder's sanitising)
+			pal[[]int{0, 1, 5, 62, 63, r.Intn(64)}[i]] = colorRGBA{uint8(r.Intn(64)), uint8(r.Intn(256)), uint8(0x80 | r.Intn(128)), 0}
+		}
 	}
 	prog := []Call{resetCall(vb, pal)}
 	sel := func(op string, v int) Call { c := mkCall(op); c.Sel = v; return c }
